@@ -39,7 +39,7 @@ func TestMain(m *testing.M) { engine.Main(m) }
 
 const altHost = "alt.example"
 
-const exoticNonce = "n 1+/%&#\u00e9:@=?"
+const exoticNonce = " n 1+/%&#\u00e9:@=? "
 
 var allAlgs = []string{"RS256", "RS384", "RS512", "PS256", "PS384", "PS512", "ES256", "ES384", "ES512", "EdDSA"}
 
@@ -1000,12 +1000,13 @@ func (w *worker) runCase(v engine.Vec) engine.Result {
 func TestCheck(t *testing.T) {
 	c := engine.Start(t, "C06")
 	thoroughTier = c.Thorough()
-	c.SetRule("E1: full product flow(10) x access-token type x signing key (ES256/ES384/ES512/EdDSA) x router, crossed with every <=k deviations of the other configuration dimensions (every RSA/PSS/P-384/P-521 algorithm, clock skew incl. 1 s, ID/AT lifetimes down to 2 s / 1 s, scope shape, userinfo assertion, private claims incl. one custom claim per registered claim name, issuer strategy/host incl. Host changing between the legs of every flow in both directions, storage capability set, nonce, exchange subject-token kind, refresh narrowing, negative probe, key history of the provider: rotation to a new kid between the legs, same kid with other key material after a priming issuance on this or on a second provider); each vector = one complete flow over HTTP on a fresh reference storage inside a synctest bubble; the final response is judged by rp.VerifyTokens/VerifyIDToken + op.VerifyAccessToken against the provider's /keys document, a reference claim table and opaque-token decryption")
+	c.SetRule("E1: full product flow(10) x access-token type x signing key (ES256/ES384/ES512/EdDSA) x router, crossed with every <=k deviations of the other configuration dimensions (every RSA/PSS/P-384/P-521 algorithm, clock skew incl. 1 s, ID/AT lifetimes down to 2 s / 1 s, scope shape, userinfo assertion, private claims incl. one custom claim per registered claim name, issuer strategy/host incl. Host changing between the legs of every flow in both directions, storage capability set, nonce, exchange subject-token kind, refresh narrowing, negative probe, key history of the provider: rotation to a new kid between the legs, same kid with other key material after a priming issuance on this or on a second provider, identifier alphabet (13 classes: plain, e-mail, |, +, space, /, %, percent-escape look-alike, non-ASCII, & # ? ;, white-space padded, case-changed, containing ':') for the subject / service user / jwt-bearer client and for the client of the user flows, scope tokens and nonce with the same characters); each vector = one complete flow over HTTP on a fresh reference storage inside a synctest bubble; the final response is judged by rp.VerifyTokens/VerifyIDToken + op.VerifyAccessToken against the provider's /keys document, a reference claim table and opaque-token decryption; every issued access token is then presented to userinfo, introspection, token exchange and revocation, which must hand the stored token id and subject to the storage")
 	c.Assume("refstore (reference storage) is correct and part of the trusted base; it sets userinfo.Subject under scope openid like the repository's example storage",
 		"go standard library crypto and go-jose primitives are correct",
 		"the integrator lists the signing algorithm in the provider's verifier options when it is not RS256/ES256/PS256",
 		"expires_in / exp / auth_time may deviate from the stored or configured value by at most the client's clock skew (DESIGN 1.6)",
-		"user claims are expected in the ID token iff scope granted and (no access token in the response or IDTokenUserinfoClaimsAssertion) — DESIGN 2 C06, op.Client contract")
+		"user claims are expected in the ID token iff scope granted and (no access token in the response or IDTokenUserinfoClaimsAssertion) — DESIGN 2 C06, op.Client contract",
+		"Either: a flow for a client id / scope token outside the plain alphabet may be refused (nothing issued); a subject containing ':' may be refused by the readers of opaque tokens (documented format <id>:<subject>) - a reader that does resolve such a token must still resolve it to the stored id and subject")
 	groups := [][]string{{"flow", "attype", "key", "router"}}
 	ks := []int{2}
 	if c.Thorough() {
@@ -1013,8 +1014,10 @@ func TestCheck(t *testing.T) {
 			[]string{"flow", "attype", "scopes", "uiassert", "caps", "private"},
 			[]string{"flow", "attype", "router", "skew", "idlt", "atlt", "probe"},
 			[]string{"flow", "key", "issuer", "exvar", "nonce"},
-			[]string{"flow", "attype", "router", "rotate", "issuer", "exvar"})
-		ks = []int{2, 1, 1, 1, 1}
+			[]string{"flow", "attype", "router", "rotate", "issuer", "exvar"},
+			[]string{"flow", "attype", "router", "subject", "client"},
+			[]string{"flow", "attype", "subject", "caps", "issuer", "exvar"})
+		ks = []int{2, 1, 1, 1, 1, 1, 1}
 	}
 	c.RunE1(engine.E1{
 		Part:   "flows",
@@ -1027,6 +1030,7 @@ func TestCheck(t *testing.T) {
 			return w.runCase
 		},
 	})
-	c.Extra("reader_probes", map[string]int64{"attributed_to_stored_id_and_subject": readerStats.attributed.Load(), "refused_for_subject_with_colon(either)": readerStats.colonRefused.Load()})
+	c.Extra("reader_probes", map[string]int64{"attributed_to_stored_id_and_subject": readerStats.attributed.Load(), "refused_for_subject_with_colon(either)": readerStats.colonRefused.Load(),
+		"foreign_or_unusual_caller_turned_away(either)": readerStats.callerRefused.Load()})
 	c.Finish()
 }
